@@ -154,7 +154,7 @@ Definition w_Iden3SparseMerkleProof : list fdesc :=
   [FD "Type" "type" false KString;
    FD "IssuerData" "issuerData" false KRaw;
    FD "CoreClaim" "coreClaim" false KString;
-   FD "MTP" "mtp" false (KCustom CuPtrMtProof)].
+   FD "MTP" "mtp" false KRaw].
 
 Definition w_Iden3SparseMerkleProof_type_const : string := "Iden3SparseMerkleProof".
 
@@ -162,9 +162,13 @@ Definition w_Iden3SparseMerkleTreeProof : list fdesc :=
   [FD "Type" "type" false KString;
    FD "IssuerData" "issuerData" false KRaw;
    FD "CoreClaim" "coreClaim" false KString;
-   FD "MTP" "mtp" false (KCustom CuPtrMtProof)].
+   FD "MTP" "mtp" false KRaw].
 
 Definition w_Iden3SparseMerkleTreeProof_type_const : string := "Iden3SparseMerkleTreeProof".
+
+(* structs decoded by reflection except for the listed members, which go through decodeMTP *)
+Definition guarded_structs : list (string * list string) :=
+  [("IssuerData", ["mtp"])].
 
 Definition merklize_calls : list string := ["json.Marshal"; "json.Unmarshal"; "delete:proof"; "json.Marshal"; "merklize.MerklizeJSONLD"; "bytes.NewReader"].
 Definition merklize_deleted : list string := ["proof"].
@@ -184,4 +188,6 @@ Definition custom_codecs : list (string * bool * bool) :=
    ("CredentialProofs", false, true);
    ("GistInfoProof", true, true);
    ("Iden3SparseMerkleProof", false, true);
-   ("Iden3SparseMerkleTreeProof", false, true)].
+   ("Iden3SparseMerkleTreeProof", false, true);
+   ("IssuerData", false, true);
+   ("RevocationStatus", false, true)].
